@@ -181,6 +181,13 @@ func (ms *Modules) add(n Node) error {
 		return fmt.Errorf("duplicate %s %s at %s and %s", kind, fullName, Source(o), Source(n))
 	}
 	m[fullName] = mod
+	if kind == "module" && mod.Namespace != nil {
+		// What was answered for this namespace before need not hold any
+		// longer: two modules of one namespace are reported as ambiguous.
+		ms.nsMu.Lock()
+		delete(ms.byNS, mod.Namespace.Name)
+		ms.nsMu.Unlock()
+	}
 	if fullName == name {
 		return nil
 	}
